@@ -252,11 +252,11 @@ const rule1 = "C08.1"
 
 // stageLayering checks C08.3 on the scheduler's runner caller.
 func stageLayering(c *an.Ctx, rule string) {
-	s := resolveSched(c, rule)
-	if !s.ok {
+	f := findRunStage(c.P)
+	if f == nil {
+		c.Und(rule, "scheduler:runner-caller", token.NoPos, "cannot find the single function of pkg/scheduler that invokes Runner.Run")
 		return
 	}
-	f := s.runStage
 	cfg := chainCfg(c.P)
 	var stage *ssa.Parameter
 	for _, prm := range f.Params {
